@@ -57,7 +57,7 @@ def gen_spec(rng):
         def ref():
             r = rng.random()
             if r < 0.15 or not pool:
-                v = rng.choice([True, False, None, 0, 5, 2.5, 'text', (1, 2)])
+                v = rng.choice([True, False, None, 0, 1, 1.0, 0.0, 5, 2.5, 'text', (1, 2)])
                 wrapped = isinstance(v, (str, tuple)) or rng.random() < 0.5
                 return ['const', v, wrapped]
             target = rng.choice(pool)
@@ -267,8 +267,10 @@ def check_structure(spec, circuit, created, evreg, ctx, where, frozen=True):
             for r, obj, cname in zip(refs, reals, confnames):
                 ctx.count('inputs_resolved')
                 if r[0] == 'const':
-                    # (Const(0)/Const(False) share one object in edzed: compared with ==)
-                    if not isinstance(obj, edzed.Const) or obj.output != r[1]:
+                    # (0 / False / 0.0 and 1 / True / 1.0 are different constants: "the right
+                    # object" carries a value of the very type that was connected)
+                    if (not isinstance(obj, edzed.Const) or obj.output != r[1]
+                            or type(obj.output) is not type(r[1])):
                         raise core.Violation(
                             'constant-not-wrapped', f"{where}: {b['name']}.{iname}: constant "
                             f"{r[1]!r} became {obj!r}")
@@ -413,6 +415,8 @@ def run_spec(case, ctx):
     created = build(spec, evreg)
     circuit = edzed.get_circuit()
     spare = edzed.FuncBlock('spare', func=lambda *a, **k: 0)    # never connected
+    spare2 = edzed.FuncBlock('spare2', func=lambda *a, **k: 0)  # never connected either
+    case_state = {'spare2': spare2, 'circuit_a': circuit}
     try:
         circuit.finalize()
     except Exception as err:
@@ -477,6 +481,21 @@ def run_spec(case, ctx):
                 'start-fails-after-explicit-finalize',
                 f"the circuit was finalized explicitly and then failed to start: {res.get('err')}")
     edzed.reset_circuit()
+    # A3: the finalized circuit stays frozen also when another circuit has become the current one
+    ctx.count('frozen_checks')
+    try:
+        spare2.connect(1, x='i0')
+    except edzed.EdzedInvalidState:
+        pass
+    except Exception as err:
+        raise core.Violation('frozen-wrong-exception',
+                             f"connect() in a finalized circuit that is no longer current: {err!r}")
+    else:
+        raise core.Violation('modification-accepted-after-finalize-connect',
+                             "connect() of a not yet connected block of a finalized circuit "
+                             "accepted after reset_circuit() had made another circuit current")
+    if spare2.inputs:
+        raise core.Violation('modification-accepted-after-finalize-connect', "inputs were stored")
     # B: plain start
     if startable:
         evreg2 = []
